@@ -325,6 +325,7 @@ func (idx *IVFIndex) Remove(vector VectorNode) error {
 	}
 	alreadyDeleted := idx.deletedNodes.Contains(id)
 	idx.mu.RUnlock()
+	verifHook("ivf.remove.checked", id)
 
 	// Fast-fail validation outside of write lock
 	if !exists {
@@ -471,6 +472,7 @@ func (idx *IVFIndex) WriteTo(w io.Writer) (int64, error) {
 		return 0, fmt.Errorf("failed to flush before serialization: %w", err)
 	}
 
+	verifHook("ivf.writeto.flushed")
 	idx.mu.RLock()
 	defer idx.mu.RUnlock()
 
